@@ -35,9 +35,11 @@ type TimerCase struct {
 	PreTask  bool    `json:"preTask"`
 	SecondAt int     `json:"secondAt"` // (process) a second instance of the same definitions is created through the same builder before this step (-1 never)
 	LazyFrom int     `json:"lazyFrom"` // (timer alone, mock clock) from this step on nobody reads the timer's channel; the reader returns after the cancellation has settled (-1: the reader always reads)
+	Far      int     `json:"far"`  // a second timer on the same clock, due far in the future (1: 9999-12-31T23:59:59Z, 2: 2300-01-01, 3: 2100-06-01): it never fires
 	Nest     int     `json:"nest"` // (process) the body of the process lies inside this many levels of embedded sub-process
 	NoSettle bool    `json:"noSettle"` // the clock is moved without waiting for the timer goroutines to settle (arming races the jumps)
 	def      *schema.TimerEventDefinition
+	farDef   *schema.TimerEventDefinition
 	defs     *schema.Definitions
 	env      *Env
 }
@@ -66,6 +68,30 @@ func (t *TimerCase) Prepare() error {
 	g.connect(d, "CT", "T1", nil, -1)
 	g.addNode(&Node{ID: "End", Kind: "end"})
 	g.connect(d, "T1", "End", nil, -1)
+	if t.Far > 0 {
+		// a second token waits at a catch event whose date timer is due far in the future (same clock)
+		far := []string{"", "9999-12-31T23:59:59Z", "2300-01-01T00:00:00Z", "2100-06-01T12:00:00Z"}[t.Far]
+		g.addNode(&Node{ID: "FK", Kind: "and"})
+		f0 := g.Flow(g.Node("Start").Out[0])
+		to := f0.To
+		// Start -> FK -> (old target), FK -> CF -> TF -> EF
+		f0.To = "FK"
+		tn := g.Node(to)
+		for i, in := range tn.In {
+			if in == f0.ID {
+				tn.In = append(tn.In[:i], tn.In[i+1:]...)
+				break
+			}
+		}
+		g.Node("FK").In = []string{f0.ID}
+		g.connect(d, "FK", to, nil, -1)
+		g.addNode(&Node{ID: "CF", Kind: "catch", Events: []EventDef{{Kind: "timer", Timer: "T:" + far}}})
+		g.connect(d, "FK", "CF", nil, -1)
+		g.addNode(&Node{ID: "TF", Kind: "task"})
+		g.connect(d, "CF", "TF", nil, -1)
+		g.addNode(&Node{ID: "EF", Kind: "end"})
+		g.connect(d, "TF", "EF", nil, -1)
+	}
 	if t.Nest > 0 {
 		nestBody(d, g, t.Nest)
 	}
@@ -84,6 +110,16 @@ func (t *TimerCase) Prepare() error {
 		return fmt.Errorf("timer definition not parsed")
 	}
 	t.def = &tds[0]
+	if t.Far > 0 {
+		if found, ok := defs.FindBy(schema.ExactId("CF")); ok {
+			if cf, ok := found.(*schema.IntermediateCatchEvent); ok && len(cf.TimerEventDefinitionField) == 1 {
+				t.farDef = &cf.TimerEventDefinitionField[0]
+			}
+		}
+		if t.farDef == nil {
+			return fmt.Errorf("far timer definition not parsed")
+		}
+	}
 	return nil
 }
 
@@ -136,6 +172,18 @@ func (t *TimerCase) Main() {
 	if err != nil {
 		L.Add("fatal", err.Error(), "", 0)
 		return
+	}
+	if t.farDef != nil {
+		fch, err := timer.New(ctx, mock, *t.farDef)
+		if err != nil {
+			L.Add("fatal", err.Error(), "", 0)
+			return
+		}
+		go func() {
+			for range fch {
+				L.Add("far-fire", "", "", 0)
+			}
+		}()
 	}
 	pauseCh, resumeCh, readerGone := make(chan struct{}), make(chan struct{}), make(chan struct{})
 	go func() {
@@ -401,6 +449,9 @@ func genC13(d *Draw) Case {
 			}
 		}
 	}
+	if !t.HostClk && d.N(4) == 3 {
+		t.Far = 1 + d.N(3)
+	}
 	if !t.HostClk && !t.Proc && !t.NoSettle && !t.Back && d.N(5) == 4 {
 		// a reader that stops reading at some point and only returns after the cancellation
 		t.LazyFrom = d.N(len(t.Steps))
@@ -468,6 +519,12 @@ func checkC13(cc Case, r *simrt.Result) *Outcome {
 	genericRunViolations("C13", r, &vl)
 	for _, p := range r.Panics {
 		vl.add("C13/panic", "%s", p)
+	}
+	for _, ev := range t.env.L.E {
+		if ev.Kind == "far-fire" || (ev.Kind == "t:task" && ev.A == "TF") {
+			vl.add("C13/fired-early-or-too-often", "the second timer on the same clock, due far in the future (variant %d), fired although the clock never got anywhere near it (history %v)", t.Far, t.Steps)
+			break
+		}
 	}
 	if t.HostClk {
 		return checkC13Host(t, r, &vl)
@@ -650,6 +707,7 @@ func checkC13(cc Case, r *simrt.Result) *Outcome {
 	probe(o, "process-level", t.Proc)
 	probe(o, "two-instances-one-builder", t.Proc && t.SecondAt >= 0)
 	probe(o, "timer-catch-inside-sub-process", t.Proc && t.Nest > 0)
+	probe(o, "second-timer-far-in-the-future-on-the-same-clock", t.Far > 0)
 	probe(o, "reader-away-until-after-cancel", paused && resumed)
 	probe(o, "cycle", t.Kind == "cycle")
 	probe(o, "clock-set-back", t.Back)
